@@ -127,6 +127,49 @@ func (r *Result) Merge(o *Result, cfg string) {
 	r.CallSites += o.CallSites
 }
 
+// Include adds the obligations another property's rules produced, as rules of
+// this property: rule Cyy/R becomes Cxx/VIA-Cyy/R. Used where a property's
+// statement depends on a mechanism another property's rules already decide
+// (e.g. the event-log gates of C18 are the verification and validation whose
+// structure C01 and C08 decide).
+func (r *Result) Include(o *Result) {
+	ren := func(rule string) string {
+		return r.Property + "/VIA-" + rule
+	}
+	for _, ob := range o.Obligations {
+		ob.Key = ren(ob.Key)
+		ob.Rule = ren(ob.Rule)
+		r.Obligations = append(r.Obligations, ob)
+	}
+	for _, v := range o.Violations {
+		v.Key = ren(v.Key)
+		v.Rule = ren(v.Rule)
+		r.Violations = append(r.Violations, v)
+	}
+	for k, n := range o.Floors {
+		r.Floors[ren(k)] = n
+	}
+	for f := range o.Functions {
+		r.Functions[f] = true
+	}
+	r.CallSites += o.CallSites
+	add := func(dst *[]string, src []string) {
+		for _, s := range src {
+			dup := false
+			for _, d := range *dst {
+				if d == s {
+					dup = true
+				}
+			}
+			if !dup {
+				*dst = append(*dst, s)
+			}
+		}
+	}
+	add(&r.TrustedBase, o.TrustedBase)
+	add(&r.Assumptions, o.Assumptions)
+}
+
 // checkFloors turns a rule that matched fewer instances than confirmed into a
 // violation: a rule matching nothing must not pass forever.
 func (r *Result) checkFloors() {
